@@ -258,6 +258,15 @@ def _impl_history(case):
                 p = root / f"f{op['n']}.txt"
                 if p.exists():
                     EI.stamp(p)
+            elif k == "corrupt_cache":
+                f = root / ".pytask" / "file_hashes.json"
+                if f.exists():
+                    if op["how"] == "truncate":
+                        f.write_text(f.read_text()[: max(1, len(f.read_text()) // 2)])
+                    elif op["how"] == "garbage":
+                        f.write_bytes(b"\x00\xff{{not json")
+                    else:
+                        f.unlink()
             elif k == "rewrite_same":
                 p = root / f"f{op['n']}.txt"
                 if p.exists():
@@ -273,9 +282,11 @@ def _impl_history(case):
                         f.write_text(text); EI.stamp(f)
                 (root / "faults.json").write_text(json.dumps(op["faults"]))
                 (root / "exec.log").unlink(missing_ok=True)
+                (root / "effects.log").unlink(missing_ok=True)
                 before = EI.read_files(root)
                 res = EI.forked_build(root, op["cfg"], op.get("crash"))
                 res["log"] = EI.read_log(root)
+                res["effects"] = EI.read_effects(root)
                 res["db"] = EI.read_db(root)
                 res["files"] = EI.read_files(root)
                 res["files_before"] = before
@@ -362,7 +373,17 @@ def history_term(case, obs):
             pref = [sig2tid[sig] for sig, _ in o.get("reports", []) if sig in sig2tid]
             tt = [task_term(t, snaps[t["id"]], o["mods"][str(t["module"])][0]) for t in op["tasks"]]
             fl = [(int(t), fault_term(f)) for t, f in op["faults"].items()]
-            ops.append(C("HBuild", cfg_term(op["cfg"]), tt, fl, pref))
+            if op.get("crash") and o.get("killed"):
+                # a killed process returns no reports: the order comes from its effect log
+                order = []
+                producer = {p: t["id"] for t in op["tasks"] for p in t["prods"]}
+                for e in o.get("effects", []):
+                    t = producer.get(int(e[1])) if e[0] == "W" else sig2tid.get(e[1])
+                    if t is not None and t not in order:
+                        order.append(t)
+                ops.append(C("HCrash", Nat(op["crash"]["after"]), cfg_term(op["cfg"]), tt, fl, order))
+            else:
+                ops.append(C("HBuild", cfg_term(op["cfg"]), tt, fl, pref))
     return ops
 
 
@@ -393,11 +414,19 @@ def canon_impl(o, sigs):
         k = sigs["t"].get(ns, sigs["n"].get(ns, ns))
         db.add((t, k, h))
     files = {int(n): (int(c) if c.strip().isdigit() else c) for n, c in o["files"].items()}
-    return {"exit": o.get("exit"), "reports": reports, "log": log, "db": db, "files": files}
+    effs = []
+    for e in o.get("effects", []):
+        if e[0] == "W":
+            effs.append((0, int(e[1]), files.get(int(e[1])) if not o.get("killed") else None))
+        elif e[0] == "C":
+            effs.append((1, sigs["t"].get(e[1], e[1]), sigs["t"].get(e[2], sigs["n"].get(e[2], e[2]))))
+        else:
+            effs.append((2, sigs["t"].get(e[1], e[1]), OUTCOMES.index(e[2])))
+    return {"exit": 9 if o.get("killed") else o.get("exit"), "reports": reports, "log": log, "db": db, "files": files, "effects": effs}
 
 
 def canon_model(m, o, modsha):
-    ex, reports, log, db, fs = m
+    ex, reports, log, db, fs, effs = m
     import engine_impl as EI
     rows = set()
     for t, k, v in db:
@@ -405,12 +434,34 @@ def canon_model(m, o, modsha):
             rows.add((t, k, modsha.get(v, f"?V{v}")))
         else:
             rows.add((t, k, EI.sha(str(v))))
-    return {"exit": ex, "reports": [tuple(r) for r in reports], "log": list(log), "db": rows, "files": {n: c for n, c in fs}}
+    return {"exit": ex, "reports": [tuple(r) for r in reports], "log": list(log), "db": rows, "files": {n: c for n, c in fs},
+            "effects": [tuple(e) for e in effs]}
 
 
 def compare(ci, mi):
     diffs = []
-    for key in ("exit", "reports", "log", "files", "db"):
+    # written contents are compared through the file map; a later write may overwrite an earlier one
+    def canon_eff(es):
+        # the predecessors wired in by an `after` expression come from a Python set: the order of the
+        # commits within one task's run of commits is not fixed, so compare each run as a sorted block
+        out, run = [], []
+        for a, b, c in es:
+            e = (a, b, None if a == 0 else c)
+            if a == 1 and (not run or run[-1][1] == b):
+                run.append(e)
+                continue
+            out += sorted(run, key=str); run = []
+            if a == 1:
+                run.append(e)
+            else:
+                out.append(e)
+        return out + sorted(run, key=str)
+    ce, me = canon_eff(ci["effects"]), canon_eff(mi["effects"])
+    if ci["exit"] == 9:
+        # killed: the log of a running body is incomplete by construction
+        ci = dict(ci, log=mi["log"], reports=mi["reports"])
+    ci, mi = dict(ci, effects=ce), dict(mi, effects=me)
+    for key in ("exit", "reports", "log", "files", "db", "effects"):
         if ci[key] != mi[key]:
             a, b = ci[key], mi[key]
             if key == "db":
@@ -532,7 +583,7 @@ def run_engine(out, tier, seed, prop, opts, ncases, oracles, tag="eng"):
     lt = [(ord(c), list(map(ord, c.lower()))) for c in sorted(cs) if ord(c) > 127]
     terms, idx = [], []
     for ci, (case, obs) in enumerate(pairs):
-        if any("raised" in o or "killed" in o for o in obs):
+        if any("raised" in o for o in obs):
             for o in obs:
                 if "raised" in o:
                     out.disagreement("pytask.build raised instead of returning", {"case": case, "traceback": o["raised"]})
